@@ -183,6 +183,14 @@ Proof.
     unfold n_rearms, n_attempts; cbn [filter is_rearm is_att length]; split; try lia; reflexivity.
 Qed.
 
+Lemma btr_spec c k s i :
+  match backoff_then_region_err c k s i with HRetry _ _ => False | HDone _ _ evs => quiet evs end.
+Proof.
+  unfold backoff_then_region_err. destruct (backoff c k _) as [s' e| |e] eqn:B; auto.
+  - apply backoff_frame in B as (_ & _ & _ & _ & sl & ->). auto.
+  - apply backoff_killed in B as (sl & ->). auto.
+Qed.
+
 Lemma handle_spec fixed c s t o i :
   match handle fixed c s t o i with
   | HRetry s' evs => room s' <= room s + n_rearms evs /\ n_attempts evs = 0
@@ -200,6 +208,8 @@ Proof.
     try (apply G; first [apply on_send_fail_spec | apply on_busy_spec]);
     try (apply W; atts_norm; reflexivity);
     try apply on_not_leader_hint_spec;
+    try (match goal with |- context [backoff_then_region_err ?a ?b ?c ?d] =>
+           pose proof (btr_spec a b c d) as X; destruct (backoff_then_region_err a b c d); [contradiction|exact X] end);
     repeat match goal with |- context [if ?b then _ else _] => destruct b end; auto;
     try (apply G, on_busy_spec);
     try (split; [unfold room; atts_norm; unfold n_rearms; cbn [filter length]; lia | reflexivity]).
